@@ -33,6 +33,10 @@ class Future(IBlockingDeref[T], IPending):
         try:
             return self._future.result(timeout=timeout)
         except _TimeoutError:
+            # Since Python 3.11 this is the builtin TimeoutError, which the body itself
+            # may have raised; only a wait which really timed out yields the default.
+            if self._future.done():
+                return self._future.result()
             return timeout_val
 
     def done(self) -> bool:
